@@ -13,7 +13,7 @@ def workdir(prefix="tlc"):
 
 def run_tlc(module, cfg_text=None, cfg_file=None, workers=16, timeout=600, simulate=None, depth=None, seed=None,
             dump_dot=None, env=None, deadlock=None, extra=(), name=None, keep=False, coverage=False, dfs=False,
-            heap="4g", sim_file=None):
+            heap="4g", sim_file=None, files=None):
     """Runs TLC on spec/<module>.tla.  Returns dict(ok, finished, distinct, generated, depth, error, error_kind,
     output, wall_s, trace) -- `ok` means TLC ran to completion and reported no error.
     cfg_text: contents of the .cfg to use (written to the scratch dir); cfg_file: a file under spec/."""
@@ -30,6 +30,8 @@ def run_tlc(module, cfg_text=None, cfg_file=None, workers=16, timeout=600, simul
             for f in os.listdir(gold):
                 if f.endswith(".tla"):
                     shutil.copy(os.path.join(gold, f), wd)
+        for fn, content in (files or {}).items():
+            open(os.path.join(wd, fn), "w").write(content)
         if cfg_text is not None:
             cfgp = os.path.join(wd, "__run.cfg")
             open(cfgp, "w").write(cfg_text)
@@ -157,15 +159,43 @@ def sany(module):
     return ok, out
 
 
-def printed_values(out):
-    """Values printed by PrintT(...) in TLC output, one TLA+ value per print, parsed (bracket matching so that
-    multi-line values and interleaved worker output are handled)."""
+def printed_values(out, marker=r'<<\s*"@@",'):
+    """Values printed by PrintT(<<"@@", v>>): returns the list of parsed v (multi-line values handled by
+    bracket matching; 16-worker interleaving is avoided by running trace specs with few workers)."""
     from tlaval import P
     vals = []
-    for line in out.splitlines():
-        if line.startswith("@@"):
-            try:
-                vals.append(P(line[2:]).value())
-            except Exception:
-                pass
+    pos = 0
+    rx = re.compile(marker)
+    while True:
+        m = rx.search(out, pos)
+        if not m:
+            break
+        i = m.start()
+        p = P(out)
+        p.i = i
+        try:
+            v = p.value()
+            vals.append(v[1])
+            pos = p.i
+        except Exception:
+            pos = m.end()
     return vals
+
+
+def mc_wrapper(name, base, defs, cfg_lines, constants):
+    """Build an MC module `name` that EXTENDS `base`, with definitions `defs` (dict name -> TLA+ expression text)
+    substituted for constants, and a cfg.  constants: dict of plain cfg constants (name -> cfg literal).
+    Returns (files dict, cfg_text)."""
+    body = "---- MODULE %s ----\nEXTENDS %s\n" % (name, base)
+    cfg = []
+    consts = []
+    for k, v in defs.items():
+        body += "c_%s == %s\n" % (k, v)
+        consts.append("  %s <- c_%s" % (k, k))
+    for k, v in constants.items():
+        consts.append("  %s = %s" % (k, v))
+    body += "====\n"
+    cfg.append("CONSTANTS")
+    cfg += consts
+    cfg += cfg_lines
+    return {name + ".tla": body}, "\n".join(cfg) + "\n"
